@@ -826,7 +826,15 @@ def r60(orig, rule):
     return 'let %s = %s; match %s {' % (name, m.group(1), name)
 
 
+def rdbg(orig, rule):
+    # debug_assert!(C);  ->  assert!(C);      (debug builds panic when C fails - the test profile is a debug build; proving C covers both profiles)
+    s = norm(orig)
+    m = _m(r'debug_assert ! \( (.+) \) ;', s)
+    return 'assert!(%s);' % m.group(1)
+
+
 GENERATORS = {
+    'RDBG': rdbg,
     'R60': r60,
     'R58': r58, 'R59': r59,
     'R57': r57,
